@@ -931,10 +931,203 @@ pub mod rpc_first_use {
     }
 }
 
+// ---------------------------------------------------------------------------------------
+// Part `mailbox-held-across-purge-ticks` (E2, after the seeded change `C18o`): "for the life of the node" spans the hourly
+// purge ticks. Tasks keep the mailbox of a keyspace for hours (a repair exchange keeps it for a whole sync), purge ticks
+// pass — some of them hitting a storage failure — and what is written through the old mailbox afterwards must be in
+// the one set later lookups return.
+
+pub mod purge_ticks {
+    use serde_json::{json, Value};
+
+    use crate::core::{Outcome, Pass, Prop, Src};
+    use crate::e2::{self, actor_view};
+    use crate::ensure;
+    use crate::model::Stamp;
+    use crate::registry::{DynPart, Gen};
+    use crate::store::{Fault, ModelStore};
+
+    #[derive(Debug, Clone)]
+    pub enum Step {
+        /// a task takes (and keeps) the mailbox of keyspace `ks`
+        Take { ks: usize },
+        /// one mutation through the i-th mailbox taken so far (modulo), or through a fresh lookup when none was taken
+        Write { holder: usize, delete: bool, source: usize },
+        /// a mutation through a fresh lookup
+        WriteFresh { ks: usize, delete: bool },
+        /// time passes: 0.5 - 2.5 h; the purge tick(s) inside hit the given storage failure, if any
+        Hours { halves: u64, fault: Option<Fault> },
+    }
+
+    #[derive(Debug, Clone)]
+    pub struct Case {
+        pub steps: Vec<Step>,
+    }
+
+    pub struct PurgeTicks;
+
+    impl Prop for PurgeTicks {
+        type Case = Case;
+
+        fn id(&self) -> &'static str {
+            "C18"
+        }
+
+        fn part(&self) -> &'static str {
+            "mailbox-held-across-purge-ticks"
+        }
+
+        fn width(&self) -> usize {
+            64
+        }
+
+        fn gen(&self, src: &mut Src) -> Case {
+            let n = 3 + src.below(10);
+            let steps = (0..n)
+                .map(|_| match src.weighted(&[3, 4, 2, 3]) {
+                    0 => Step::Take { ks: src.below(2) },
+                    1 => Step::Write { holder: src.below(4), delete: src.chance(1, 3), source: src.below(2) },
+                    2 => Step::WriteFresh { ks: src.below(2), delete: src.chance(1, 3) },
+                    _ => Step::Hours {
+                        halves: 1 + src.below64(5),
+                        fault: match src.below(4) {
+                            0 => Some(Fault::FailBefore),
+                            1 => Some(Fault::Partial(src.below(2))),
+                            _ => None,
+                        },
+                    },
+                })
+                .collect();
+            Case { steps }
+        }
+
+        fn run(&self, case: &Case) -> Outcome {
+            e2::block_on_sim(60_000_000, e2::no_skew(), run(case))
+        }
+
+        fn describe(&self, case: &Case) -> Value {
+            json!(case.steps.iter().map(|s| format!("{:?}", s)).collect::<Vec<_>>())
+        }
+
+        fn rule(&self) -> &'static str {
+            "one real KeyspaceGroup with its real hourly purge task on paused time; 3-12 steps: a task takes and keeps the mailbox of one of two \
+             keyspaces, a mutation (set or delete, either source, own key, stamp from the simulated clock) goes through one of the mailboxes taken \
+             earlier or through a fresh lookup, 0.5-2.5 simulated hours pass (the purge ticks inside them hit a storage failure in half of the \
+             cases: nothing removed, or a prefix); oracle: every acknowledged mutation is in the set a LATER lookup serialises, that set equals \
+             storage, and the keyspace is listed in the keyspace info peers poll; non-trivial = a mutation through a mailbox taken before a purge \
+             tick that failed"
+        }
+    }
+
+    async fn run(case: &Case) -> Outcome {
+        let store = ModelStore::default();
+        let group = e2::new_group(store.clone(), 9).await;
+        let t0 = tokio::time::Instant::now();
+        let mut held: Vec<(usize, _, bool)> = vec![]; // (keyspace, mailbox, a failed purge tick passed since it was taken)
+        let mut acked: Vec<(usize, u64, Stamp, bool)> = vec![];
+        let mut next_key = 1u64;
+        let mut nontrivial = false;
+        let mut failed_ticks = 0;
+        for step in &case.steps {
+            let now = Stamp { secs: 60_000_000 + t0.elapsed().as_secs(), frac: 0, counter: next_key as u16, node: 3 };
+            match step {
+                Step::Take { ks } => {
+                    let m = group.get_or_create_keyspace(&format!("held{ks}")).await;
+                    held.push((*ks, m, false));
+                },
+                Step::Write { holder, delete, source } => {
+                    let key = next_key;
+                    next_key += 1;
+                    let (ks, ok) = if held.is_empty() {
+                        let m = group.get_or_create_keyspace("held0").await;
+                        (0, if *delete { m.send(e2::msg_del(*source, e2::meta(key, now))).await.is_ok() } else { m.send(e2::msg_set(*source, e2::doc(key, now, 2))).await.is_ok() })
+                    } else {
+                        let (ks, m, stale) = &held[holder % held.len()];
+                        nontrivial |= *stale;
+                        (*ks, if *delete { m.send(e2::msg_del(*source, e2::meta(key, now))).await.is_ok() } else { m.send(e2::msg_set(*source, e2::doc(key, now, 2))).await.is_ok() })
+                    };
+                    if ok {
+                        acked.push((ks, key, now, *delete));
+                    }
+                },
+                Step::WriteFresh { ks, delete } => {
+                    let key = next_key;
+                    next_key += 1;
+                    let m = group.get_or_create_keyspace(&format!("held{ks}")).await;
+                    let ok = if *delete { m.send(e2::msg_del(0, e2::meta(key, now))).await.is_ok() } else { m.send(e2::msg_set(0, e2::doc(key, now, 2))).await.is_ok() };
+                    if ok {
+                        acked.push((*ks, key, now, *delete));
+                    }
+                },
+                Step::Hours { halves, fault } => {
+                    for _ in 0..*halves {
+                        // the fault is re-armed every half hour: it hits whichever purge call comes next
+                        store.inner.lock().purge_fault = *fault;
+                        let before = store.inner.lock().injected;
+                        tokio::time::sleep(std::time::Duration::from_secs(1_800)).await;
+                        if store.inner.lock().injected > before {
+                            failed_ticks += 1;
+                            for h in held.iter_mut() {
+                                h.2 = true;
+                            }
+                        }
+                    }
+                    store.inner.lock().purge_fault = None;
+                },
+            }
+        }
+        let advertised = group.get_keyspace_info().await.keyspace_timestamps;
+        for ks in 0..2 {
+            let name = format!("held{ks}");
+            if group.verif_get(&name).is_none() {
+                ensure!(!acked.iter().any(|a| a.0 == ks), "acked-mutation-missing-from-keyspace-state", "keyspace {name} took acknowledged mutations but no longer exists");
+                continue;
+            }
+            let _ = group.get_or_create_keyspace(&name).await;
+            let v = actor_view(&group, &name).await;
+            for (_, key, stamp, delete) in acked.iter().filter(|a| a.0 == ks) {
+                let held_now = if *delete { v.dead.get(key) } else { v.live.get(key) };
+                // a tombstone may have been purged by a later tick (its deleting node's newer stamps arrived on both sources > 1 h later)
+                let purged = *delete && held_now.is_none() && !e2::store_view(&store, &name).dead.contains_key(key);
+                ensure!(
+                    held_now == Some(stamp) || purged,
+                    "acked-mutation-missing-from-keyspace-state",
+                    "keyspace {name}: the {} of key {key} at {:?} was acknowledged, but the state a later lookup returns holds {:?} (state {:?})",
+                    if *delete { "delete" } else { "set" },
+                    stamp,
+                    held_now,
+                    v
+                );
+            }
+            let st = e2::store_view(&store, &name);
+            ensure!(v == st, "state-differs-from-storage", "keyspace {name}: state {:?} but storage {:?}", v, st);
+            if acked.iter().any(|a| a.0 == ks) {
+                ensure!(advertised.contains_key(&name), "keyspace-with-accepted-operations-not-advertised", "keyspace {name} holds acknowledged mutations but is not in the keyspace info: {:?}", advertised.keys().collect::<Vec<_>>());
+            }
+        }
+        let mut labels = vec![];
+        if failed_ticks > 0 {
+            labels.push("a_purge_tick_failed");
+        }
+        if nontrivial {
+            labels.push("write_through_a_mailbox_older_than_a_failed_tick");
+        }
+        if case.steps.iter().any(|s| matches!(s, Step::Hours { .. })) {
+            labels.push("hours_passed");
+        }
+        Ok(Pass { nontrivial, labels })
+    }
+
+    pub fn parts() -> Vec<Box<dyn DynPart>> {
+        vec![Box::new(Gen::new(PurgeTicks, 60_000, 3_000_000))]
+    }
+}
+
 pub fn parts_all() -> Vec<Box<dyn DynPart>> {
     let mut p = parts();
     p.extend(startup::parts());
     p.extend(repair_race::parts());
     p.extend(rpc_first_use::parts());
+    p.extend(purge_ticks::parts());
     p
 }
